@@ -69,6 +69,7 @@ pub fn seal(kind: AeadKind, key: &[u8], nonce: &[u8], aad: &[u8], pt: &[u8], wha
     assert_eq!(key.len(), kind.key_len());
     assert_eq!(nonce.len(), kind.nonce_len());
     crate::unit_log(key, nonce, what);
+    crate::diag_key(key);
     with_aead!(kind, key, |c| c.encrypt(nonce.into(), Payload { msg: pt, aad }).expect("seal"))
 }
 
@@ -79,11 +80,44 @@ pub fn open(kind: AeadKind, key: &[u8], nonce: &[u8], aad: &[u8], ct: &[u8], wha
     if ct.len() < TAG {
         return None;
     }
+    crate::diag_key(key);
     let r = with_aead!(kind, key, |c| c.decrypt(nonce.into(), Payload { msg: ct, aad }).ok());
     if r.is_some() {
         crate::unit_log(key, nonce, what);
+        return r;
     }
-    r
+    // diagnostic mode only: was it sealed under another key of this session, or a neighbouring counter?
+    if let Some(cands) = crate::diag_candidates(key.len()) {
+        let mut nonces: Vec<Vec<u8>> = vec![nonce.to_vec()];
+        if nonce.len() == 12 {
+            for d in [1i64, -1, 2, -2] {
+                // 96-bit little-endian counter (Shadowsocks)
+                let mut le = [0u8; 16];
+                le[..12].copy_from_slice(nonce);
+                let v = u128::from_le_bytes(le).wrapping_add(d as i128 as u128);
+                nonces.push(v.to_le_bytes()[..12].to_vec());
+                // 16-bit big-endian counter in front of the IV (VMess)
+                let mut be = nonce.to_vec();
+                let c = u16::from_be_bytes([be[0], be[1]]).wrapping_add(d as u16);
+                be[..2].copy_from_slice(&c.to_be_bytes());
+                nonces.push(be);
+            }
+        }
+        for k in cands.iter() {
+            for (ni, n) in nonces.iter().enumerate() {
+                if k.as_slice() == key && ni == 0 {
+                    continue;
+                }
+                let r = with_aead!(kind, k, |c| c.decrypt(n.as_slice().into(), Payload { msg: ct, aad }).ok());
+                if r.is_some() {
+                    crate::unit_log(k, n, what);
+                    crate::diag_note(format!("unit '{what}' does not open under the key and nonce the specification prescribes; it opens under {} and {}", if k.as_slice() == key { "the prescribed key" } else { "ANOTHER key of the same session" }, if ni == 0 { "the prescribed nonce" } else { "a neighbouring counter value" }));
+                    return r;
+                }
+            }
+        }
+    }
+    None
 }
 
 pub fn aes_ecb_encrypt_block(key: &[u8], block: &mut [u8; 16]) {
